@@ -229,11 +229,45 @@ def autoref_one(ctx, opname, tts, k):
     return fired
 
 
+def witness_levels(ctx):
+    """the machine-checked witness C09_quantify_levels_refuted on the implementation:
+    f = (v0 /\ v2) \/ (v1 /\ v3), the request fires at the first node created by
+    quantify(f, {level 0}); the retry reads level 0 against the new order"""
+    n = 4
+    M = Mgr(ctx, 'witness quantify by level', n, list(range(n)))
+    vs = [M.op('var', j) for j in range(n)]
+    for v in vs:
+        M.op('incref', v)
+    a = M.op('apply', 'and', vs[0], vs[2], None)
+    M.op('incref', a)
+    c = M.op('apply', 'and', vs[1], vs[3], None)
+    M.op('incref', c)
+    f = M.op('apply', 'or', a, c, None)
+    M.op('incref', f)
+    tf = M.tt(f)
+    M.op('configure', True)
+    for lvl in (1, 2, 0):
+        # the variable at that level NOW (dynamic reordering may already have moved it)
+        v_now = int(M.b._level_to_var[lvl][1:])
+        M.op('set_trig', 1)
+        r = M.op('quantify', f, 'l', [lvl], False)
+        M.b._verif_trig = None
+        ctx.case(('witness-levels', lvl), True)
+        if r is None or M.tt(r) != T.exists(tf, n, [v_now]):
+            ctx.violation('C09:by-level:quantify',
+                          f'quantify(f, {{level {lvl}}}) with the request at the first node creation: the result '
+                          f'is not \\E v{v_now}. f (the retry quantified the variable that sifting moved to '
+                          f'that level)', M.case())
+            break
+    M.op('configure', False)
+
+
 def run(ctx):
     q = ctx.quick
     rng = ctx.rng
     _impl.install_trigger(True)
     try:
+        witness_levels(ctx)
         for opname in OPS:
             for rep in range(1 if q else 4):
                 tts = [rng.getrandbits(1 << N) for _ in range(3)]
